@@ -403,7 +403,7 @@ SUBCHECKS = {"prog": x_prog, "twin": x_twin, "xfail_decor": x_xfail_decor, "forc
 
 FEATURES = ("own_exc", "expect", "force", "decor", "noupcall", "nested_cleanup", "handlers", "late_handler",
             "truthy_return", "base_handler", "eq_exc")
-ALL_KINDS = ["fail", "error", "skip", "xfail", "uxs", "kbd", "exit", "kbdsub", "exitsub", "basedirect", "xfail_err", "skip_empty", "skip2", "unhashable", "skipsub", "surrogate",
+ALL_KINDS = ["fail", "error", "skip", "xfail", "uxs", "kbd", "exit", "kbdsub", "exitsub", "basedirect", "genexit", "xfail_err", "skip_empty", "skip2", "unhashable", "skipsub", "surrogate",
              "failsub", "mismatch"]
 
 
